@@ -31,7 +31,7 @@ LEVEL_NOTE = ('PARTIAL CLAIM: only the algebraic clauses of C09 are decided (fre
 REQUIRED_CLASSES = ['roundtrip:interior', 'wrap:negative-input', 'norm:normalised']
 EXPECTED_LABELS = ['freq-is-scaled-phase-derivative', 'roundtrip-two-sample-average', 'wrap-range-and-congruence',
                    'normalise-scale-invariant', 'normalise-sign-preserving', 'normalise-columns-independent']
-BUDGET_S = {'quick': 120, 'thorough': 720}
+BUDGET_S = {'quick': 120, 'thorough': 900}
 OPTS = {'quick': {'sample_every': 5, 'path_wall_s': 8}, 'thorough': {'sample_every': 11, 'timeout_ms': 20000}}
 TWO_PI = 2 * math.pi
 
